@@ -323,6 +323,100 @@ def model_term(c, o):
     return "model_trace %d %s %d%%nat %s" % (c["cfg"]["vocab"], render_cfg(c["cfg"], o["numctx"]), c["cfg"]["parallel"], ops)
 
 
+# ------------------------------------------------------------------ pure parts (both runners' copies)
+
+def gen_pure(ctx):
+    rng = ctx.rng
+    out = []
+    top = 9 if ctx.quick() else 14
+    for n in range(1, top):                      # exhaustive small scope
+        for ln in range(0, n + 3):
+            for k in range(0, n + 2):
+                out.append({"op": "discard", "numctx": n, "len": ln, "keep": k, "klass": "pure-discard"})
+    for _ in range(60 if ctx.quick() else 1500):
+        v = rng.choice([2, 3])
+        a = rnd_toks(rng, v, rng.randint(0, 6))
+        b = a[:rng.randint(0, len(a))] + rnd_toks(rng, v, rng.randint(0, 3)) if rng.random() < 0.6 else rnd_toks(rng, v, rng.randint(0, 6))
+        out.append({"op": "prefix", "a": a, "b": b, "klass": "pure-prefix"})
+    for _ in range(150 if ctx.quick() else 3000):
+        v = rng.choice([2, 3])
+        base = rnd_toks(rng, v, 6)
+        ns = rng.randint(1, 4)
+        ages = rng.sample(range(1, 20), ns)
+        slots = []
+        for i in range(ns):
+            r = rng.random()
+            inp = base[:rng.randint(0, 6)] if r < 0.6 else (rnd_toks(rng, v, rng.randint(0, 5)) if r < 0.9 else [])
+            slots.append({"inputs": inp, "inuse": rng.random() < 0.3, "age": ages[i]})
+        multi = rng.random() < 0.6
+        if multi and all(x["inuse"] for x in slots):
+            slots[rng.randrange(ns)]["inuse"] = False          # findBestCacheSlot dereferences nil when every slot is in use (never reached: semaphore)
+        prompt = base[:rng.randint(1, 6)] + (rnd_toks(rng, v, rng.randint(0, 2)) if rng.random() < 0.5 else [])
+        out.append({"op": "find", "multi": multi, "slots": slots, "prompt": prompt, "klass": "pure-find"})
+    return out
+
+
+def render_pure(c, o):
+    """one Coq term per runner"""
+    terms = []
+    for who in ("ollama", "llama"):
+        r = o[who]
+        if c["op"] == "discard":
+            terms.append("chk_shift_discard (%d) (%d) (%d) (%d)" % (c["numctx"], c["len"], c["keep"], r))
+        elif c["op"] == "prefix":
+            terms.append("chk_common_prefix %s %s %d%%nat" % (zl(c["a"]), zl(c["b"]), r))
+        else:
+            sl = cq_list(["(%s, %s, %d%%nat)" % (zl(x["inputs"]), cq_bool(x["inuse"]), x["age"]) for x in c["slots"]], "(list tok * bool * nat)")
+            if r.get("err") or r["slot"] < 0:
+                res = "None"
+            else:
+                res = "(Some (%d%%nat, %d%%nat, %s))" % (r["slot"], r["numpast"], cq_list([zl(x or []) for x in r["after"]], "(list tok)"))
+            terms.append("chk_find %s %s %s %s" % (cq_bool(c["multi"]), sl, zl(c["prompt"]), res))
+    return terms
+
+
+def pure_stage(ctx, binp):
+    cases = gen_pure(ctx)
+    obs, err = ctx.run_jsonl(binp, [strip(c) for c in cases], timeout=600)
+    if obs is None or len(obs) != len(cases):
+        ctx.obligation("harness c07 answered every pure case", False, err)
+        ctx.proof_failures.append({"obligation": "correspondence: harness c07 did not answer every pure case", "detail": err})
+        return
+    items, owner = [], []
+    for c, o in zip(cases, obs):
+        ctx.note_case(strip(c), c["op"] != "discard" or o.get("ollama", 0) > 0, c["klass"])
+        if "panic" in o:
+            ctx.violation({"class": "panic", "op": c["op"]}, "slot choice panicked: %s" % o["panic"], {"case": strip(c), "impl": o})
+            continue
+        if o["ollama"] != o["llama"]:
+            ctx.count("runners-differ")
+        # the property-level facts of the pure parts: never a slot in use; the reported prefix really is common
+        if c["op"] == "find":
+            for who in ("ollama", "llama"):
+                r = o[who]
+                if not r.get("err") and r["slot"] >= 0:
+                    if c["slots"][r["slot"]]["inuse"]:
+                        ctx.violation({"class": "double-use", "op": "find", "runner": who}, "%s slot choice returned slot %d which is in use" % (who, r["slot"]), {"case": strip(c), "impl": o})
+                    np = r["numpast"]
+                    if r["after"][r["slot"]][:np] != c["prompt"][:np] or np > len(c["prompt"]):
+                        ctx.violation({"class": "slot-cache-mismatch", "op": "find", "runner": who},
+                                      "%s slot choice reports %d cached inputs but slot %d holds %s for prompt %s" % (who, np, r["slot"], r["after"][r["slot"]], c["prompt"]),
+                                      {"case": strip(c), "impl": o})
+        for t in render_pure(c, o):
+            items.append(t)
+            owner.append((c, o))
+    bad, log = ctx.coq_eval(HEADER, items, per_file=200, name="pure")
+    if bad is None:
+        ctx.obligation("correspondence: model evaluated on the pure cases", False, log)
+        ctx.proof_failures.append({"obligation": "correspondence evaluation (pure) failed in coqc", "detail": log})
+        return
+    ctx.disagreements_checked += len(items)
+    ctx.obligation("correspondence: ShiftDiscard / countCommonPrefix / slot choice of both runners = model on %d evaluations" % len(items), not bad)
+    for i in bad[:5]:
+        c, o = owner[i]
+        ctx.mismatch("Slots/Corr.%s" % items[i].split()[0], strip(c), o, items[i])
+
+
 # ------------------------------------------------------------------ the check
 
 def strip(c):
@@ -380,9 +474,12 @@ def run(ctx):
     ctx.assumptions = ["text-only inputs (no multimodal SameBatch groups)", "kvcache.Causal without sliding window behind the kvcache.Cache interface",
                        "requests are not cancelled mid-generation", "the network is any function of the history the cache exposes (harness: a hash; theorems: a Section variable)"]
     ctx.proof_stage(["Slots"], "Slots/Properties_C07.v", extra_targets=["Slots/Corr.v"])
+    if not ctx.quick():
+        ctx.coqchk(["V.Slots.Properties_C07"])
     binp = ctx.go_build("c07")
     if not binp:
         return
+    pure_stage(ctx, binp)
     cases = gen_cases(ctx)
     obs, err = ctx.run_jsonl(binp, [strip(c) for c in cases], timeout=900)
     if obs is None or len(obs) != len(cases):
@@ -439,7 +536,7 @@ def run(ctx):
         ctx.obligation("correspondence: model evaluated on all cases", False, log)
         ctx.proof_failures.append({"obligation": "correspondence evaluation failed in coqc", "detail": log})
         return
-    ctx.disagreements_checked = len(items)
+    ctx.disagreements_checked += len(items)
     ctx.obligation("correspondence: model = implementation after every operation of %d histories" % len(items), not bad)
     for i in bad[:10]:
         c, o = idx[i]
